@@ -36,13 +36,19 @@ func init() {
 		Gen:        genC15,
 		Exec:       execC15,
 		QuickSecs:  40, ThoroughSecs: 600, RunsPerJob: 60,
-		Rule: "a run issues, inside a fake-clock bubble starting at 2000-01-01, a PKI topology with smx509.CreateCertificate (roots, 0-3 intermediates, optional second root with a cross-signed intermediate, optional unrelated root with the SAME subject and another key, leaf; per certificate a key of type SM2 / ECDSA P-256 / P-384 / RSA-1024 / RSA-2048 / Ed25519, a validity window relative to the clock, CA flag, path length, key usage, extended key usage, DNS names, permitted / excluded DNS subtrees, signature algorithm) and plays {advance the clock to just before / exactly at / just after a notBefore / notAfter, Certificate.Verify with chosen root and intermediate pools (AddCert or AppendCertsFromPEM), implicit or explicit time, optional tampered pool member, CheckSignatureFrom / CheckSignature between arbitrary pairs, certificate request (plain, CFCA via smx509 and via cfca) create-parse-check, revocation list create-parse-check incl. signing with a foreign key, one byte altered in the signed portion / signature value / envelope of any DER object, every (sampled) byte altered, truncation}; " +
+		Rule: "a run issues, inside a fake-clock bubble starting at 2000-01-01, a PKI topology with smx509.CreateCertificate (roots, 0-3 intermediates, optional second root with a cross-signed intermediate, optional unrelated root with the SAME subject and another key, leaf; per certificate a key of type SM2 / ECDSA P-256 / P-384 / RSA-1024 / RSA-2048 / Ed25519, a validity window relative to the clock, CA flag, path length, key usage, extended key usage, DNS names, permitted / excluded DNS subtrees, signature algorithm) and plays {advance the clock to just before / exactly at / just after a notBefore / notAfter, Certificate.Verify with chosen root and intermediate pools (AddCert or AppendCertsFromPEM), implicit or explicit time, optional tampered pool member, CheckSignatureFrom / CheckSignature between arbitrary pairs, certificate request (plain, CFCA via smx509 and via cfca) create-parse-check, revocation list create-parse-check incl. signing with a foreign key, one byte altered in the signed portion / signature value / envelope of any DER object, every (sampled) byte altered, truncation, " +
+			"Verify with one pool member added through CertPool.AddCertWithConstraint (callback chosen by the program: at most k certificates below / certificate s not below / refuse all / accept all; in the roots, the intermediates or both), with a small VerifyOptions.MaxConstraintComparisions, with VerifyOptions.KeyUsages any / default / serverAuth / clientAuth / codeSigning / mixed against extended key usages nested down the path, Certificate.CheckSignature and CheckSignatureWithDigest driven directly with the honest triple of an issued object and with the signature / message / digest / key / algorithm replaced, the deprecated Certificate.CreateCRL parsed with ParseCRL, ParseDERCRL and ParseRevocationList and checked with CheckCRLSignature / CheckSignatureFrom}; " +
 			"abstract history = sequence of (op kind, key types, template classes, pool shape, time relation to the windows, fault kind and region, verdict class); non-trivial = at least one object issued and one checking op executed; distinct = distinct abstract histories",
-		Real:  []string{"smx509 (CreateCertificate, ParseCertificate, CheckSignatureFrom, CheckSignature, Verify, CertPool, CreateCertificateRequest, ParseCertificateRequest, CreateCFCACertificateRequest, ParseCFCACertificateRequest, CreateRevocationList, ParseRevocationList, ParsePKCS8PrivateKey)", "cfca (CreateCertificateRequest, ParseCertificateRequest)", "sm2 signing and verification (asm / generic per node), sm3", "Go crypto/rsa, crypto/ecdsa, crypto/ed25519 for the other key types"},
+		Real:  []string{"smx509 (CreateCertificate, ParseCertificate, CheckSignatureFrom, CheckSignature, Verify, CertPool, CreateCertificateRequest, ParseCertificateRequest, CreateCFCACertificateRequest, ParseCFCACertificateRequest, CreateRevocationList, ParseRevocationList, ParsePKCS8PrivateKey, CertPool.AddCertWithConstraint, VerifyOptions.MaxConstraintComparisions / KeyUsages, Certificate.CheckSignatureWithDigest, Certificate.CreateCRL, ParseCRL, ParseDERCRL, Certificate.CheckCRLSignature)", "cfca (CreateCertificateRequest, ParseCertificateRequest)", "sm2 signing and verification (asm / generic per node), sm3", "Go crypto/rsa, crypto/ecdsa, crypto/ed25519 for the other key types"},
 		Stubs: []string{"wall clock: testing/synctest fake clock (moves only when the simulator sleeps; cannot move backwards - earlier instants are reached with an explicit VerifyOptions.CurrentTime)", "crypto/rand and the standard library's signing randomness: testing/cryptotest.SetGlobalRandom seeded from the program", "transport between CA, subscriber and verifier: byte alteration, truncation, substitution of the issuer certificate"},
 		Assume: []string{
 			"chain soundness is judged for every returned chain against the harness' topology model by KEY IDENTITY; the model never reads a field of a parsed certificate",
-			"path length counts every intermediate between the constrained certificate and the leaf (Go's reading, at least as strict as RFC 5280 which exempts self-issued ones; the generator issues no self-issued intermediates); name constraints of a CA are checked against the DNS names of every certificate below it in the chain (RFC 5280 6.1.3 (b),(c); no self-issued intermediates exist in the simulation); host name matching (VerifyOptions.DNSName) and extended-key-usage nesting are not part of the statement: their outcome is recorded, never judged",
+			"path length counts every intermediate between the constrained certificate and the leaf (Go's reading, at least as strict as RFC 5280 which exempts self-issued ones; the generator issues no self-issued intermediates); name constraints of a CA are checked against the DNS names of every certificate below it in the chain (RFC 5280 6.1.3 (b),(c); no self-issued intermediates exist in the simulation); host name matching (VerifyOptions.DNSName) is not part of the statement: its outcome is recorded, never judged",
+			"extended key usage, soundness only, by the rule the library documents (VerifyOptions.KeyUsages: \"A chain is accepted if it allows any of the listed values. An empty list means ExtKeyUsageServerAuth\"; Verify: \"enforced nested down a chain\"): unless ExtKeyUsageAny is requested, every returned chain must have a requested usage that each of its certificates permits (no extended key usage, anyExtendedKeyUsage, or the usage listed) - class chain-eku-incompatible; Verify is never REQUIRED to accept a chain that carries extended key usages unless any is requested",
+			"pool constraints (AddCertWithConstraint): the callback is a deterministic monotone predicate over model records (refusing a list implies refusing every extension of it), so the demand - the predicate accepts the part of a returned chain BELOW the constrained certificate, which is what the library hands to it - is the weakest one under both readings of the documentation's \"the whole chain\"; a certificate that is both the verified one and a configured root yields the one-element chain without the callback being consulted (as in Go): not judged; completeness is asserted only for paths whose constraints accept",
+			"MaxConstraintComparisions (values -1, 1..8): soundness only - returned chains satisfy the model whatever the budget, no panic; a budget may reject or drop chains the default budget accepts (counted as probes by a second Verify with the default budget); the completeness direction is kept for paths without name constraints only (the budget is consulted only for a CA that carries name constraints)",
+			"direct checks: the honest (algorithm, signed bytes, signature value) triple located by the harness' TLV reader must verify with CheckSignature and, for RSA / ECDSA / SM2, with CheckSignatureWithDigest and the digest computed by the harness (Go hashes; SM3(ZA || m) from the harness' SM2 / SM3 models); an altered signature value, altered message, altered digest (inside the leftmost order-length bytes that ECDSA uses, FIPS 186-4 6.4), shortened digest, empty signature, another certificate's key, another algorithm of the family with the digest an honest verifier would compute for it, the original digest under another algorithm's name, and for SM2 the plain SM3 digest without ZA must all be refused; Ed25519 has no pre-hashed form (CheckSignatureWithDigest documents RSA, ECDSA, SM2): recorded only",
+			"deprecated CreateCRL: must succeed for every key type with the default algorithm (it has no CA / cRLSign precondition), parse with all three parsers with equal issuer, times, entries and authority key id, verify under the issuer with CheckCRLSignature (ungated) and like any revocation list with CheckSignatureFrom / CheckSignature, fail under a foreign key; altered deliveries are judged through ParseRevocationList first and ParseCRL + ParseDERCRL + CheckCRLSignature second; the deprecated pair reads the algorithm from the outer identifier only, so an envelope alteration decoding to the identical triple is tolerated there as for requests",
 			"trust anchors are whatever the verifier configured: the self-signature, validity of signature algorithm (SHA-1) of a root is not demanded, but its window, CA flag, key usage, path length and name constraints are (as for any non-leaf)",
 			"completeness (Verify must succeed) is asserted only if the model finds a PLAIN chain: all certificates inside their windows (const c15ExactWindows: inclusive ends per RFC 5280 4.1.2.5; otherwise more than one hour from both ends), every issuer a CA with keyCertSign or no key usage, no path length, no name constraint, no SHA-1 signature, ExtKeyUsageAny requested or no EKU in the chain, no DNSName, no tampered pool member",
 			"CheckSignatureFrom must refuse a parent that is not a CA or lacks keyCertSign (RFC 5280 4.2.1.9 / 4.2.1.3, quoted in the function); the ungated Certificate.CheckSignature is the path used to confirm signatures made by such issuers; SHA-1 certificate signatures: either verdict of CheckSignatureFrom is accepted",
@@ -65,6 +71,9 @@ var c15ConstraintPool = []string{"example.com", ".example.com", "com", "example.
 //   chk    [child, parent]
 //   csr    [ktype, kidx, algSel, flavour(0 plain,1 smx509 CFCA,2 cfca pkg), tmpKind, randMode, modelCheck] S[cn, dns, challenge]
 //   crl    [issuer, number, entries, thisH, nextH, algSel, signWith(0 issuer key, k+1 key of cert k), randMode, modelCheck]
+//   (verify, continued) [..., consCert(0 none, k+1), consPools(1 roots, 2 intermediates), consKind, consParam, maxConstraintComparisons]
+//   sig    [obj, pos, xor, otherCert, algSel]
+//   crl1   [issuer, entries, thisH, nextH, signWith(0 issuer key, k+1 key of cert k), randMode, modelCheck, pos, xor]
 //   alter  [obj, region(0 tbs,1 sig,2 anywhere), pos, xor]
 //   alterall [obj, phase, xorSeed]
 //   trunc  [obj, keep]
@@ -185,6 +194,7 @@ func genC15(r *sim.Rand, tier string) *sim.Program {
 	}
 	// ---- twists
 	shortWindow := -1
+	ekuRun, ncRun := false, false
 	if twisted {
 		// the CAs on the main path (root first) and how many intermediates lie below each
 		cas := append([]int{0}, interIdx...)
@@ -252,14 +262,17 @@ func genC15(r *sim.Rand, tier string) *sim.Program {
 					v.perm += "," + r.PickStr(c15ConstraintPool...)
 				}
 				v.crit = r.Intn(2)
+				ncRun = true
 			case 15, 16: // excluded subtrees
 				_, v := anyCA()
 				v.excl = related(r.Chance(1, 2))
 				v.crit = r.Intn(2)
+				ncRun = true
 			case 17: // signature algorithm other than the default (SHA-1, PSS, refused ones)
 				victim.alg = r.Intn(10)
 			case 18: // extended key usage
 				victim.eku = r.Range(1, 5)
+				ekuRun = true
 			case 19: // window ends in the boundary years of the two ASN.1 time types (UTCTime covers 1950..2049)
 				base := time.Date(2000, 1, 1, 0, 0, 0, 0, time.UTC)
 				hrs := func(y int, m time.Month, d, h int) int {
@@ -280,6 +293,15 @@ func genC15(r *sim.Rand, tier string) *sim.Program {
 			default: // inverted window: never valid
 				victim.nbH, victim.naH = r.Range(2, 9), r.Range(-3, 1)
 			}
+		}
+		// extended key usages nested down the main path: a CA that enumerates usages, a leaf inside or outside that list
+		if r.Chance(1, 6) {
+			_, v := anyCA()
+			v.eku = r.PickInt(1, 1, 2, 3, 4, 5)
+			if r.Chance(2, 3) {
+				leaf.eku = r.PickInt(1, 1, 2, 3, 4, 5)
+			}
+			ekuRun = true
 		}
 	}
 	if r.Chance(1, 3) {
@@ -378,12 +400,40 @@ func genC15(r *sim.Rand, tier string) *sim.Program {
 				timeMode, tDelta = 2, r.PickInt(-24*400, -100, -1, 1, 100, 24*400, 24*4000)
 			}
 		}
-		eku := r.PickInt(0, 0, 0, 0, 1, 2, 3, 4)
+		eku := r.PickInt(0, 0, 0, 0, 1, 2, 3, 4, 5, 6, 7)
+		if ekuRun && r.Chance(1, 2) {
+			eku = r.PickInt(1, 2, 3, 5, 6, 7)
+		}
 		tamper, tpos, txor := 0, 0, 0
 		if faulty && r.Chance(1, 4) {
 			tamper, tpos, txor = 1+anyCert(), r.Intn(1<<16), 1+r.Intn(255)
 		}
-		op := p.Add("verify", lf, roots, inters, r.Intn(4), timeMode, tCert, tWhich, tDelta, eku, b2iInt(r.Chance(1, 4)), tamper, tpos, txor)
+		// a pool member with a constraint callback (mostly a CA of the main path; in the roots, the intermediates or both)
+		consT, consPools, consKind, consParam := 0, 0, 0, 0
+		if r.Chance(1, 4) {
+			cas := append([]int{0}, interIdx...)
+			if twin >= 0 {
+				cas = append(cas, twin)
+			}
+			consT = 1 + cas[r.Intn(len(cas))]
+			if r.Chance(1, 6) {
+				consT = 1 + anyCert()
+			}
+			consPools = r.PickInt(1, 2, 2, 3, 3)
+			consKind = r.PickInt(0, 0, 1, 1, 2, 3)
+			switch consKind {
+			case 0:
+				consParam = r.PickInt(1, 1, 2, 2, 3, 0)
+			case 1:
+				consParam = r.PickInt(lf, lf, anyCert(), anyCert())
+			}
+		}
+		// a small budget of name constraint comparisons
+		maxCmp := 0
+		if (ncRun && r.Chance(1, 3)) || r.Chance(1, 16) {
+			maxCmp = r.PickInt(1, 1, 2, 2, 3, 4, 6, 8, -1)
+		}
+		op := p.Add("verify", lf, roots, inters, r.Intn(4), timeMode, tCert, tWhich, tDelta, eku, b2iInt(r.Chance(1, 4)), tamper, tpos, txor, consT, consPools, consKind, consParam, maxCmp)
 		if r.Chance(1, 5) {
 			op.WithS(r.PickStr(c15DNSPool...))
 		} else {
@@ -448,7 +498,30 @@ func genC15(r *sim.Rand, tier string) *sim.Program {
 	if tier == "thorough" {
 		nops = r.Range(4, 12)
 	}
+	sigOp := func() {
+		p.Add("sig", r.Intn(nobjs+2), r.Intn(1<<16), 1+r.Intn(255), anyCert(), r.Intn(6))
+	}
+	crl1Op := func() {
+		iss := 0
+		if r.Chance(1, 2) {
+			iss = anyCert()
+		}
+		signWith := 0
+		if r.Chance(1, 6) {
+			signWith = 1 + anyCert()
+		}
+		p.Add("crl1", iss, r.PickInt(0, 1, 2, 5), -r.Intn(48), r.PickInt(24, 24*7, 0), signWith, b2iInt(r.Chance(1, 5)), b2iInt(r.Chance(1, 10)), r.Intn(1<<16), 1+r.Intn(255))
+		nobjs++
+	}
 	for i := 0; i < nops; i++ {
+		// (the mix of the older operations is left as it was; the direct checks and the deprecated revocation list come on top)
+		if r.Chance(1, 8) {
+			if r.Chance(2, 5) {
+				crl1Op()
+			} else {
+				sigOp()
+			}
+		}
 		switch x := r.Intn(20); {
 		case x < 7:
 			verifyOp()
